@@ -125,9 +125,13 @@ def run(R):
         files.append(p)
         ncalls += len(recs)
     bref = {(x["fn"], x["case"]): x for x in vlib.read_ndjson(bigm[0][3])}
-    if len(bref) < 1 or any(x["ret"] != 0 for x in bref.values()):
-        R.notes.append("4 GiB Argon2 runs could not allocate here: %s" % sorted((k, v["ret"]) for k, v in bref.items()))
-    for (i, variant, name, bp) in bigm[1:]:
+    # a run that could not get its 4 GiB returns -1 (ENOMEM): that is the machine, not the backend - compare only when every run succeeded
+    brets = [x["ret"] for (_, _, _, bp) in bigm for x in vlib.read_ndjson(bp)]
+    big_ok = len(bref) >= 1 and all(r == 0 for r in brets)
+    if not big_ok:
+        R.notes.append("4 GiB Argon2 runs could not all allocate here (return codes %s): not compared" % brets)
+    R.cov["argon2_4gib_runs_compared"] = len(brets) if big_ok else 0
+    for (i, variant, name, bp) in (bigm[1:] if big_ok else []):
         recs = []
         for x in vlib.read_ndjson(bp):
             rf = bref.get((x["fn"], x["case"]))
